@@ -24,6 +24,13 @@ fn main() {
         let h = props::worker(&args[2]);
         engine::pool::worker_main(h);
     }
+    if args.len() >= 4 && args[1] == "--run-script" {
+        // debugging aid: run one script in-process (mode = string|file|dash-c) without the pool
+        let mut h = props::common::script_worker();
+        let out = h(serde_json::json!({"s": args[3], "mode": args[2]}).to_string().as_bytes());
+        println!("{}", String::from_utf8_lossy(&out));
+        return;
+    }
     if args.len() < 2 {
         eprintln!("usage: vcheck <PROPERTY> [--tier quick|thorough] [--replay FILE]");
         std::process::exit(2);
